@@ -177,6 +177,8 @@ pub struct Hist {
     contract_parents: BTreeMap<TxId, BTreeMap<ContractId, TxId>>,
     /// fewer draining operations: pools grow larger
     calm: bool,
+    /// remaining operations during which the storage view keeps lagging
+    lag_left: usize,
     /// may a block contain a pooled transaction together with its pooled parent?
     pub parent_child_blocks: bool,
     /// do not generate submissions that hit an entry the bounded spent-input cache
@@ -265,6 +267,7 @@ impl Hist {
             counters: BTreeMap::new(),
             contract_parents: BTreeMap::new(),
             calm,
+            lag_left: 0,
             parent_child_blocks,
             avoid_forgotten,
         };
@@ -1433,7 +1436,7 @@ predicate: false,
             .chain(self.model.removed.iter())
             .copied()
             .collect();
-        for _ in 0..self.rng.gen_range(1..=2) {
+        for _ in 0..self.rng.gen_range(1..=3) {
             let src = if chance(&mut self.rng, 75) || others.is_empty() {
                 &pooled
             } else {
@@ -1560,7 +1563,17 @@ predicate: false,
     /// Execute one operation against the real pool worker.
     pub fn run(&mut self, idx: usize, op: Op) -> Ran {
         let before = self.snap.clone();
-        let desc = self.describe(&op);
+        let mut desc = self.describe(&op);
+        // a lagging storage view catches up after a few operations (or at the next import)
+        if self.model.chain.with(|c| c.lag.is_some()) {
+            if self.lag_left == 0 || matches!(op, Op::Block { .. }) {
+                self.model.chain.with(|c| c.lag = None);
+                self.lag_left = 0;
+            } else {
+                self.lag_left -= 1;
+                desc.push_str(" [stale storage view]");
+            }
+        }
         let _ = self.sink.take();
         let mut insert = None;
         let mut followups = Vec::new();
@@ -1598,13 +1611,28 @@ predicate: false,
             }
             Op::Block { height, txs } => {
                 // the importer commits to the database first, then notifies the pool
+                // (in production the pool handles the import notification independently
+                // of the storage view it reads, so the view may still show the old state:
+                // generated for the default pool limits, where the spent-input cache
+                // cannot overflow)
+                let lag = self.cfg.name == "default"
+                    && self.cfg.utxo_validation
+                    && !txs.is_empty()
+                    && chance(&mut self.rng, 50);
                 let spent_fields = &mut self.spent_fields;
                 self.model.chain.with(|c| {
+                    let pre = lag.then(|| Box::new(c.clone()));
                     for t in txs {
                         Self::apply_to_chain(c, t, spent_fields);
                     }
                     c.height = *height;
+                    c.lag = pre;
                 });
+                if lag {
+                    self.lag_left = self.rng.gen_range(2..=6);
+                    desc.push_str(" [storage view lags]");
+                    self.count("block.storage_view_lags_after_import");
+                }
                 let mut block = Block::default();
                 block.header_mut().set_block_height(BlockHeight::new(*height));
                 let mut statuses = Vec::new();
@@ -1613,13 +1641,24 @@ predicate: false,
                     let (ptx, _) = &self.model.store[&t.id];
                     let tx: Transaction = ptx.deref().into();
                     block.transactions_mut().push(tx);
+                    // committed transactions may have succeeded or reverted
+                    let reverted = t.tip % 4 == 3;
                     statuses.push(TransactionExecutionStatus {
                         id: t.id,
-                        result: TransactionExecutionResult::Success {
-                            result: None,
-                            receipts: Arc::new(vec![]),
-                            total_gas: 0,
-                            total_fee: 0,
+                        result: if reverted {
+                            TransactionExecutionResult::Failed {
+                                result: None,
+                                receipts: Arc::new(vec![]),
+                                total_gas: 0,
+                                total_fee: 0,
+                            }
+                        } else {
+                            TransactionExecutionResult::Success {
+                                result: None,
+                                receipts: Arc::new(vec![]),
+                                total_gas: 0,
+                                total_fee: 0,
+                            }
                         },
                     });
                 }
@@ -1764,7 +1803,9 @@ predicate: false,
             },
             after.txs.keys().map(short_id).collect::<Vec<_>>().join(",")
         ));
-        let chain = self.model.chain.with(|c| c.clone());
+        let chain = self.model.chain.visible();
+        let truth = self.model.chain.truth();
+        let lagging = self.model.chain.with(|c| c.lag.is_some());
         self.snap = after.clone();
         Ran::Step(Box::new(Step {
             op,
@@ -1775,6 +1816,8 @@ predicate: false,
             extracted,
             sink,
             chain,
+            truth,
+            lagging,
         }))
     }
 
@@ -1883,6 +1926,24 @@ predicate: false,
                         .is_some_and(|u| u.knows_inputs && u.state == UState::Extracted);
                     self.model
                         .spend_committed(t, step.before.contains(&t.id), handed_out);
+                    let was_pooled = step.before.contains(&t.id);
+                    if was_pooled
+                        || self.model.unsettled.get(&t.id).is_some_and(|u| u.knows_inputs)
+                    {
+                        for k in Model::input_keys(t) {
+                            self.model.known_spent.insert(k);
+                            if was_pooled {
+                                self.model.pooled_committed_inputs.insert(k);
+                            }
+                        }
+                    }
+                    if was_pooled && step.lagging {
+                        self.count("block.stale_view_after_import_of_pooled_not_extracted_tx");
+                        if chance(&mut self.rng, 85) {
+                            self.todo
+                                .push_front(Todo::SpendInputOf(t.id, "spend_committed_input"));
+                        }
+                    }
                     self.model.unsettled.remove(&t.id);
                     self.model.removed.remove(&t.id);
                     self.model.rolled_back.remove(&t.id);
@@ -1960,7 +2021,7 @@ predicate: false,
                 _ if *stale => {
                     if !step.before.contains(id)
                         && !self.model.unsettled.contains_key(id)
-                        && !step.chain.txs.contains(id)
+                        && !step.truth.txs.contains(id)
                     {
                         self.model.stale_preconf.insert(*id);
                         if chance(&mut self.rng, 60) {
